@@ -36,6 +36,7 @@ fn drivers() -> Vec<Box<dyn Driver>> {
         Box::new(props::c17::C17),
         Box::new(props::c18::C18),
         Box::new(props::c15::C15),
+        Box::new(props::c16::C16),
         Box::new(props::c19::C19),
     ]
 }
